@@ -6,11 +6,12 @@ from .. import common, gen, ref
 from . import c01
 
 PROP = "C10"
-RULE = ("bounded-exhaustive strings over the 40-character class alphabet (tiling invariants online on every input, full token lists compared with R-TOK "
+RULE = ("bounded-exhaustive strings over the 42-character class alphabet (tiling invariants online on every input, full token lists compared with R-TOK "
         "for every string of length <= 3 and a 1-in-16 sample beyond), random soup/corruptions up to ~400 bytes, and configurations (fresh processes) "
         "that tokenize probe inputs before and after registering 1-5 extra symbolic / word operators in every role. distinct class = (token kind, "
         "kind of the following token, glued or spaced) pairs observed in agreement with R-TOK, plus one class per configuration operator")
-EXTRA_OPS = ["**", "=>", "<>", "<=>", "+++", "---", "!!", "**=", "hi", "xor", "π", "~~", "plusminus", "&&&", "|>", "?:", "::"]
+EXTRA_OPS = ["**", "=>", "<>", "<=>", "+++", "---", "!!", "**=", "hi", "xor", "π", "~~", "plusminus", "&&&", "|>", "?:", "::",
+             "is_strictly_greater_than_or_equal_to", "a_word_operator_of_exactly_32_by", "a_word_operator_of_exactly_33_byt", "x" * 70, "is-not", "≠≠", "不等于"]
 
 
 def compare(s, hook_rec, table):
@@ -104,6 +105,8 @@ def run_shard(desc):
         for _ in range(arg):
             if rnd.random() < 0.4:
                 inputs.append(c01.soup(rnd))
+            elif rnd.random() < 0.03:
+                inputs.append("\ufeff" + ref.join_tokens(ref.Renderer(rnd=rnd).tokens(tg.program(d=2))))
             else:
                 t = tg.program(d=rnd.randint(1, 4))
                 s = ref.join_tokens(ref.Renderer(rnd=rnd, extra_parens=0.1).tokens(t), rnd=rnd, compact=rnd.random(), ws=gen.ws_maker(rnd) if rnd.random() < 0.5 else None)
@@ -201,7 +204,7 @@ def run(rep, tier):
     for part in common.pmap(run_shard, shards):
         rep.merge(part)
     rep.extra["exhaustive"] = True
-    rep.extra["exhaustive_space"] = "all strings of length <= %d over the 40-symbol class alphabet (tiling invariants); full R-TOK comparison for length <= 3" % L
+    rep.extra["exhaustive_space"] = "all strings of length <= %d over the 42-symbol class alphabet (tiling invariants); full R-TOK comparison for length <= 3" % L
     rep.floor = 50000
 
 
